@@ -216,6 +216,11 @@ impl InputState {
             } else {
                 0
             };
+            // The cursor counts characters, `complete_path` expects a byte offset
+            let pos = match s.char_indices().nth(pos) {
+                Some((byte_pos, _)) => byte_pos,
+                None => s.len(),
+            };
             let comps = file_comp.complete_path(s, pos);
             match comps {
                 Ok((_, comps)) => {
